@@ -234,7 +234,111 @@ class Gen:
                     ops.append(self.op(in_cb=True, kind=kind, max_script=i - 1))
             self.scripts[i] = ops
 
+    def scenario(self, name):
+        """Structured scenario: a garbage set (ring plus chords, optionally with an acyclic tail and an untraced
+        owner) whose members carry callbacks that upgrade weak pointers into the set, resurrect neighbours, allocate,
+        collect or panic; weak pointers / cleanables to members are kept by the program; every handle is dropped in a random
+        order, then collections run, then what the callbacks stored is released and collected again."""
+        r = self.r
+        f = self.p.feat
+        n = r.randrange(2, 5)
+        self.fixed_shape = True
+        self.ns, self.nu, self.nwf = r.randrange(1, 3), r.randrange(0, 2), (r.randrange(0, 2) if f["weak"] else 0)
+        keep = [n, n + 1] if self.nh >= n + 2 else [self.nh - 1]
+        scripts = {}
+        kinds = {}
+
+        def cb_ops(kind):
+            ops = []
+            for _ in range(r.randrange(1, 4)):
+                c = r.random()
+                k = r.choice(keep)
+                if f["weak"] and c < 0.45:
+                    ops.append("up %s h%d" % (r.choice(["w%d" % r.randrange(self.nw)] + (["s.w0"] if self.nwf and kind != "action" else [])), k))
+                elif c < 0.6 and kind == "fin":
+                    ops.append(r.choice(["getf s f0 h%d" % k, "clone s.f0 h%d" % k, "clrf s f0", "takef s f0 h%d" % k]))
+                elif c < 0.7:
+                    ops.append("collect")
+                elif c < 0.8:
+                    ops.append("new h%d %d %d %d 0 0 0" % (k, self.ns, self.nu, self.nwf))
+                elif c < 0.85 and f["clean"]:
+                    ops.append("clean c%d" % r.randrange(self.nk))
+                elif c < 0.9:
+                    ops.append("drop h%d" % k)
+                elif c < 0.93 and getattr(self.p, "panic_p", 0.04) > 0:
+                    ops.append("panic")
+                else:
+                    ops.append("unwrap h%d" % k if r.random() < 0.5 else "clone h%d h%d" % (k, r.choice(keep)))
+            return ops
+        sid = 0
+        for kind in (["fin"] if f["fin"] else []) + ["drop"] + (["action"] if f["clean"] else []):
+            for _ in range(r.randrange(1, 3)):
+                sid += 1
+                scripts[sid] = cb_ops(kind)
+                kinds[sid] = kind
+        self.scripts, self.script_kind, self.nscripts = scripts, kinds, sid
+        lines = ["program %s" % name, "consts %s" % self.consts,
+                 "feat fin=%d weak=%d clean=%d auto=%d" % (f["fin"], f["weak"], f["clean"], f["auto"]),
+                 "sizes node=%d map=%d" % (self.sizes["node"], self.sizes["map"]), "tables %d %d %d" % (self.nh, self.nw, self.nk)]
+        for i in sorted(scripts):
+            lines.append("script %d %s" % (i, " ; ".join(scripts[i])))
+        lines.append("begin")
+        ops = []
+        if f["auto"] and r.random() < 0.6:
+            ops.append("cfg auto 0")
+        for k in range(n):
+            fin = self.script_of("fin", 1, sid) if r.random() < 0.6 else 0
+            drp = self.script_of("drop", 1, sid) if r.random() < 0.7 else 0
+            cl = 1 if (f["clean"] and r.random() < 0.5) else 0
+            ops.append("new h%d %d %d %d %d %d %d" % (k, self.ns, self.nu, self.nwf, cl, fin, drp))
+        for k in range(n):
+            ops.append("setf h%d f0 h%d" % (k, (k + 1) % n))
+        for _ in range(r.randrange(0, n)):
+            ops.append("setf h%d %s h%d" % (r.randrange(n), self.slot(), r.randrange(n)))
+        if f["weak"]:
+            for j in range(min(self.nw, n)):
+                if r.random() < 0.8:
+                    ops.append("down h%d w%d" % (r.randrange(n), j))
+            if self.nwf:
+                for k in range(n):
+                    if r.random() < 0.6:
+                        ops.append("setw h%d w0 w%d" % (k, r.randrange(self.nw)))
+        if f["clean"]:
+            for j in range(self.nk):
+                if r.random() < 0.6:
+                    sc = self.script_of("action", 1, sid)
+                    ops.append("reg h%d %d c%d %s" % (r.randrange(n), sc, j, "-" if r.random() < 0.7 else "h%d" % r.randrange(n)))
+        if r.random() < 0.3:
+            # a live object owning a member through an untraced field pins the set
+            ops.append("new h%d %d 1 0 0 0 0" % (keep[0], self.ns))
+            ops.append("setf h%d u0 h%d" % (keep[0], r.randrange(n)))
+        if r.random() < self.p.fault_p:
+            kind = r.choice(self.p.kinds)
+            ops.append("fault trace %d %d" % (r.randrange(1, 2 * n + 1), r.randrange(0, 3)) if kind == "trace" else "fault %s %d" % (kind, r.randrange(1, n + 1)))
+        order = list(range(n))
+        r.shuffle(order)
+        for k in order:
+            ops.append("drop h%d" % k)
+            if r.random() < 0.15:
+                ops.append("collect")
+        for _ in range(r.randrange(1, 4)):
+            ops.append("collect")
+        for _ in range(r.randrange(0, 6)):
+            ops.append(self.op())
+        for k in range(self.nh):
+            if r.random() < 0.8:
+                ops.append("drop h%d" % k)
+        if f["clean"]:
+            for j in range(self.nk):
+                if r.random() < 0.4:
+                    ops.append(r.choice(["clean c%d", "cdrop c%d"]) % j)
+        for _ in range(r.randrange(1, 4)):
+            ops.append("collect")
+        return lines + ops + ["end"]
+
     def program(self, name):
+        if self.r.random() < getattr(self.p, "scenario_p", 0.3):
+            return self.scenario(name)
         r = self.r
         f = self.p.feat
         self.fixed_shape = r.random() < self.p.shape_p
@@ -260,6 +364,19 @@ class Gen:
             ops.append("new h%d %s" % (k, self.spec(self.nscripts)))
         for _ in range(r.randrange(0, 2 * nb + 2)):
             ops.append("setf h%d %s h%d" % (r.randrange(nb), self.slot(), r.randrange(nb)))
+        if f["weak"]:
+            # weak pointers (in the tables and in weak fields) to objects that may later become garbage, so that
+            # upgrades from finalizers / destructors / cleaning actions hit members of the set being reclaimed
+            for _ in range(r.randrange(0, 4)):
+                ops.append("down h%d w%d" % (r.randrange(nb), r.randrange(self.nw)))
+            if self.nwf:
+                for _ in range(r.randrange(0, 3)):
+                    ops.append("setw h%d w%d w%d" % (r.randrange(nb), r.randrange(self.nwf), r.randrange(self.nw)))
+        if f["clean"] and self.nscripts:
+            for _ in range(r.randrange(0, 3)):
+                sc = self.script_of("action", 1, self.nscripts)
+                if sc:
+                    ops.append("reg h%d %d c%d %s" % (r.randrange(nb), sc, r.randrange(self.nk), "-" if r.random() < 0.6 else "h%d" % r.randrange(nb)))
         n = r.randrange(*self.p.oplen)
         for _ in range(n):
             ops.append(self.op())
